@@ -7,7 +7,7 @@ R=$(mktemp -d /tmp/mustpass.XXXX); V=$(mktemp -d /tmp/mustpassv.XXXX)
 (cd $R && patch -p1 -s < $P) || { echo "patch failed"; exit 2; }
 (cd $R && GOFLAGS=-mod=mod GOPROXY=off GOSUMDB=off GOTOOLCHAIN=local go build ./... && GOFLAGS=-mod=mod GOPROXY=off GOSUMDB=off GOTOOLCHAIN=local go test -vet=off -count=1 ./... 2>&1 | tail -1)
 for p in "$@"; do
-  out=$(cd /verif && ./bin/cbv check -repo $R -verif $V -prop $p -tier quick 2>&1); rc=$?
+  out=$(cd /verif && ${CBV:-./bin/cbv} check -repo $R -verif $V -prop $p -tier quick 2>&1); rc=$?
   echo "$(basename $P) $p rc=$rc violations=$(echo "$out" | grep -c '^VIOLATION')"
   echo "$out" | grep '^VIOLATION' | sed 's/.*obligation=/    /' | cut -c1-220 | head -5
   [ $rc -ge 2 ] && echo "$out" | tail -2
